@@ -123,7 +123,32 @@ impl Message {
                 let services = services.unwrap();
                 Ok(Message::Services(services))
             }
-            10 => Ok(Message::GhostChain(GhostChainSync::deserialize(buffer))),
+            10 => {
+                // 32 bytes start hash + 4 bytes count + 82 bytes per entry
+                if buffer.len() < 36 {
+                    warn!(
+                        "buffer size : {:?} is not valid for type : {:?}",
+                        buffer.len(),
+                        message_type
+                    );
+                    return Err(Error::from(ErrorKind::InvalidData));
+                }
+                let count = u32::from_be_bytes(buffer[32..36].try_into().unwrap()) as usize;
+                if count
+                    .checked_mul(82)
+                    .and_then(|len| len.checked_add(36))
+                    .map_or(true, |len| len > buffer.len())
+                {
+                    warn!(
+                        "buffer size : {:?} is too short for entry count : {:?} for type : {:?}",
+                        buffer.len(),
+                        count,
+                        message_type
+                    );
+                    return Err(Error::from(ErrorKind::InvalidData));
+                }
+                Ok(Message::GhostChain(GhostChainSync::deserialize(buffer)))
+            }
             11 => {
                 if buffer.len() != 72 {
                     warn!(
